@@ -338,15 +338,32 @@ func multiSplit(value string, seps ...string) []string {
 }
 
 func recursiveCheck(value []string, funcs []func(string) bool) bool {
-	for i := 0; i < len(value); i++ {
-		tempVal := strings.Join(value[:i+1], " ")
-		for _, j := range funcs {
-			if j(tempVal) && (len(value[i+1:]) == 0 || recursiveCheck(value[i+1:], funcs)) {
-				return true
+	// failed[k] records that value[k:] cannot be split into accepted groups,
+	// so that every suffix is examined at most once
+	failed := make([]bool, len(value)+1)
+	var check func(start int) bool
+	check = func(start int) bool {
+		for i := start; i < len(value); i++ {
+			tempVal := strings.Join(value[start:i+1], " ")
+			for _, j := range funcs {
+				if !j(tempVal) {
+					continue
+				}
+				if i+1 == len(value) {
+					return true
+				}
+				if failed[i+1] {
+					continue
+				}
+				if check(i + 1) {
+					return true
+				}
+				failed[i+1] = true
 			}
 		}
+		return false
 	}
-	return false
+	return check(0)
 }
 
 func in(value []string, arr []string) bool {
